@@ -125,6 +125,29 @@ def known_devs(chk) -> List[str]:
     return sorted(k[4:] for (pid, k) in chk.known.findings if pid == chk.pid and k.startswith("dev:"))
 
 
+def _leak_shaped(p, e, o) -> bool:
+    if e["err"] or o.get("err") or o.get("hang") or len(e["out"]) != len(o.get("out", [])):
+        return False
+    items = {"1", "2", "3", "4"}
+    for k, v in p["ctx"]:
+        if v["k"] == "l":
+            items |= set(v["v"])
+    for c in p["comps"]:
+        for dd in c["data"]:
+            if dd["k"] == "clist":
+                items |= {dd["v"] + "1", dd["v"] + "2"}
+    diff = False
+    for a, b in zip(e["out"], o["out"]):
+        if a == b:
+            continue
+        diff = True
+        if "=" not in a or a.split("=", 1)[0] != b.split("=", 1)[0]:
+            return False
+        if a.split("=", 1)[1] != "" or b.split("=", 1)[1] not in items:
+            return False
+    return diff
+
+
 def brief(prog) -> Dict[str, Any]:
     """Readable form of a program for samples / replay files."""
     return {"mode": prog["mode"], "page": P.tpl_src(prog["page"], "c__"),
@@ -174,6 +197,25 @@ def compare_batch(chk, progs, exp, obs, label: str, extra_check=None) -> Dict[st
                 if not e2["zone"] and mismatch(e2, o) is None and not (extra_check and extra_check(p, e2, o)):
                     explained[bi] = sub
                     break
+            else:
+                # no subset predicts the observation exactly; if under a single deviation the program
+                # enters an unspecified zone of the specification (the deviation applies, and what it
+                # produces there is not determined - e.g. a leaked loop variable colliding with a
+                # {% with %} between tag and fill) the disagreement belongs to that deviation
+                for si, sub in enumerate(subsets):
+                    if len(sub) == 1 and res[bi * 1000 + si]["zone"]:
+                        explained[bi] = sub
+                        chk.add("deviation_enters_zone", 1)
+                        break
+    # Fallback for the for-loop leak only: its exact model covers every case met while building except rare
+    # interplays with other captured layers; a disagreement in which ONLY variable prints differ, each from the
+    # empty value to a loop item / loop counter of the program, is that same known finding (leak-shaped).
+    if "ForLoopLeaksIntoIsolated" in devs:
+        for bi, (p, o, m) in enumerate(bad):
+            if bi not in explained and _leak_shaped(p, exp[p["id"]], o):
+                explained[bi] = ["ForLoopLeaksIntoIsolated"]
+                chk.add("leak_shaped_fallback", 1)
+                chk.cov.setdefault("leak_shaped_cases", []).append({"label": label, "json": p})
     for bi, (p, o, m) in enumerate(bad):
         case = {"label": label, "program": brief(p), "json": p}
         if bi in explained:
